@@ -92,7 +92,12 @@ type c09Agg struct {
 	checked, overlap, withBG, nontrivial int
 }
 
-func runC09(c *core.Ctx) { c09Legs(c, nil) }
+func runC09(c *core.Ctx) {
+	c09Legs(c, nil)
+	if f, ok := extra["C09"]; ok {
+		f(c)
+	}
+}
 
 // c09Legs: all legs (only == nil: the C09 check), or the named ones as a leg of another property's check.
 func c09Legs(c *core.Ctx, only map[string]bool) {
